@@ -35,8 +35,13 @@ def pandas_cases(run, label, queries, recsA, maxA):
         if not A or any(len(r) != len(A[0]) for r in A) or any(c is None for r in A for c in r):
             continue
         qtext = engine.render_query(case, engine.Spelling(ec.case_key(case)), 'py')
-        df = pd.DataFrame(A, columns=list(case['hdrA']))
+        # every third case with non-string column labels (years, a float): RBQL sees their str(); the caller's index must stay as it is
+        labels = list(case['hdrA']) if n % 3 else [2020 + k if k % 2 == 0 else 0.5 + k for k in range(len(case['hdrA']))]
+        if labels != list(case['hdrA']):
+            qtext = engine.render_query(case, engine.Plain(), 'py')
+        df = pd.DataFrame(A, columns=labels)
         snap = df.copy(deep=True)
+        snap_labels = [(type(c).__name__, c) for c in df.columns]
         err = None
         out = None
         try:
@@ -46,7 +51,7 @@ def pandas_cases(run, label, queries, recsA, maxA):
         n += 1
         run.traces += 1
         run.count(['pandas', ec.case_key(case)], nontrivial=len(A) >= 2)
-        if not df.equals(snap) or list(df.columns) != list(snap.columns) or df.values.tolist() != snap.values.tolist():
+        if not df.equals(snap) or list(df.columns) != list(snap.columns) or df.values.tolist() != snap.values.tolist() or [(type(c).__name__, c) for c in df.columns] != snap_labels:
             run.violation({'impl': 'py', 'backend': 'pandas', 'what': 'input dataframe modified', 'query': qtext}, {'kind': 'pandas_case', 'case': case})
         want_err = case['expect']['err']
         if (err is None) != (not want_err):
